@@ -75,17 +75,65 @@ inline std::string hex64(uint64_t x)
     return buf;
 }
 
+inline const char* tag_name(jsoncons::semantic_tag t)
+{
+    using st = jsoncons::semantic_tag;
+    switch (t)
+    {
+        case st::none: return "";
+        case st::undefined: return "@undefined";
+        case st::datetime: return "@datetime";
+        case st::epoch_second: return "@epoch_second";
+        case st::epoch_milli: return "@epoch_milli";
+        case st::epoch_nano: return "@epoch_nano";
+        case st::bigint: return "@bigint";
+        case st::bigdec: return "@bigdec";
+        case st::bigfloat: return "@bigfloat";
+        case st::float128: return "@float128";
+        case st::base16: return "@base16";
+        case st::base64: return "@base64";
+        case st::base64url: return "@base64url";
+        case st::uri: return "@uri";
+        case st::clamped: return "@clamped";
+        case st::multi_dim_row_major: return "@multi_dim_row_major";
+        case st::multi_dim_column_major: return "@multi_dim_column_major";
+        case st::ext: return "@ext";
+        case st::id: return "@id";
+        case st::regex: return "@regex";
+        case st::code: return "@code";
+        default: return "@other";
+    }
+}
+
+inline jsoncons::semantic_tag tag_of_name(const std::string& n)
+{
+    using st = jsoncons::semantic_tag;
+    static const st all[] = {st::none, st::undefined, st::datetime, st::epoch_second, st::epoch_milli, st::epoch_nano, st::bigint, st::bigdec,
+                             st::bigfloat, st::float128, st::base16, st::base64, st::base64url, st::uri, st::clamped, st::multi_dim_row_major,
+                             st::multi_dim_column_major, st::ext, st::id, st::regex, st::code};
+    for (st t : all) if (n == tag_name(t)) return t;
+    throw bad_op{};
+}
+
+template <class Json>
+void print_val_(const Json& v, std::string& out);
+
 template <class Json>
 Json read_val(const toks_t& t, std::size_t& pos)
 {
     if (pos >= t.size()) throw bad_op{};
-    const std::string& tok = t[pos++];
+    std::string tok = t[pos++];
+    jsoncons::semantic_tag tag = jsoncons::semantic_tag::none;
+    {
+        auto at = tok.find('@');
+        if (at != std::string::npos) { tag = tag_of_name(tok.substr(at)); tok = tok.substr(0, at); }
+    }
     if (tok == "n") return Json::null();
     if (tok == "t") return Json(true);
     if (tok == "f") return Json(false);
     if (tok == "[")
     {
-        Json a(jsoncons::json_array_arg);
+        Json a(jsoncons::json_array_arg, tag);
         while (true)
         {
             if (pos >= t.size()) throw bad_op{};
@@ -117,32 +165,44 @@ Json read_val(const toks_t& t, std::size_t& pos)
             errno = 0;
             long long v = std::strtoll(p, nullptr, 10);
             if (errno) throw bad_op{};
-            return Json(static_cast<int64_t>(v));
+            return Json(static_cast<int64_t>(v), tag);
         }
         errno = 0;
         unsigned long long v = std::strtoull(p, nullptr, 10);
         if (errno) throw bad_op{};
-        if (v <= static_cast<unsigned long long>(INT64_MAX)) return Json(static_cast<int64_t>(v));
-        return Json(static_cast<uint64_t>(v));
+        if (v <= static_cast<unsigned long long>(INT64_MAX)) return Json(static_cast<int64_t>(v), tag);
+        return Json(static_cast<uint64_t>(v), tag);
     }
     if (tok[0] == 'd')
     {
         uint64_t bits = std::strtoull(tok.c_str() + 1, nullptr, 16);
         double d;
         std::memcpy(&d, &bits, 8);
-        return Json(d);
+        return Json(d, tag);
     }
-    if (tok[0] == 's') return Json(unhex(tok, 1));
+    if (tok[0] == 'e')
+    {
+        uint16_t bits = static_cast<uint16_t>(std::strtoul(tok.c_str() + 1, nullptr, 16));
+        return Json(jsoncons::half_arg, bits, tag);
+    }
+    if (tok[0] == 's') return Json(unhex(tok, 1), tag);
     if (tok[0] == 'b')
     {
         std::string raw = unhex(tok, 1);
-        return Json(jsoncons::byte_string_arg, std::vector<uint8_t>(raw.begin(), raw.end()));
+        return Json(jsoncons::byte_string_arg, std::vector<uint8_t>(raw.begin(), raw.end()), tag);
     }
     throw bad_op{};
 }
 
 template <class Json>
 void print_val(const Json& v, std::string& out)
+{
+    print_val_(v, out);
+    if (v.type() != jsoncons::json_type::array && v.type() != jsoncons::json_type::object) out += tag_name(v.tag());
+}
+
+template <class Json>
+void print_val_(const Json& v, std::string& out)
 {
     switch (v.type())
     {
@@ -151,6 +211,10 @@ void print_val(const Json& v, std::string& out)
         case jsoncons::json_type::int64: out += "i" + std::to_string(v.template as<int64_t>()); break;
         case jsoncons::json_type::uint64: out += "i" + std::to_string(v.template as<uint64_t>()); break;
         case jsoncons::json_type::float16:
+        {
+            out += "e" + hex64(v.template as<uint16_t>()).substr(12);
+            break;
+        }
         case jsoncons::json_type::float64:
         {
             double d = v.template as<double>();
@@ -173,6 +237,7 @@ void print_val(const Json& v, std::string& out)
         }
         case jsoncons::json_type::array:
             out += "[";
+            out += tag_name(v.tag());
             for (const auto& x : v.array_range()) { out += " "; print_val(x, out); }
             out += " ]";
             break;
